@@ -422,9 +422,13 @@ def run_shard(spec, R):
                     s.append(copies[k])
             return s
 
+        copies_ref = list(copies)
         ok, ser = R.guarded("assemble_series", build)
         if not ok:
             continue
+        # the list handed to stack is the caller's: same length, same objects in the same order afterwards
+        R.check(len(copies) == len(copies_ref) and all(x is y for x, y in zip(copies, copies_ref)), "stack_inputs_untouched",
+                lambda: {**case, "what": "the list of images itself", "length_before": len(copies_ref), "length_after": len(copies)})
         R.check(ser.series and ser.time_num == count and ser.img.shape[dim] == count, "series_shape", case)
         for k in range(count):
             ok, sl = R.guarded("time_slice_of_stack", lambda: ser.time_slice(k))
